@@ -119,6 +119,11 @@ def launchExtensions (s : State) (ph : Phase) : List String → State
     if s.agents.length > maxAgents then
       let s := setAgent s { a with st := .launchError, errSet := true, errType := "TooManyExtensions" }
       initFinish (storeFatal s "Extension.LaunchError") ph false "success" none
+    else if s.execFails.contains p then
+      -- supervisor.Exec fails: agentLaunchError (LaunchError / UnknownError, first fatal error
+      -- Extension.LaunchError), no exit channel is created for it, the init fails
+      let s := setAgent s { a with st := .launchError, errSet := true, errType := "UnknownError" }
+      initFinish (storeFatal (s.emit s!"sup execfail:{extFull p s.gen}") "Extension.LaunchError") ph false "success" none
     else
       let pr : Proc := { name := p, gen := s.gen, chanCreated := true }
       let s := { s with procs := s.procs ++ [pr] }
